@@ -602,4 +602,225 @@ theorem pinv_reach {enc : PItem → QItem} {prog : List Pipeline.Instr} {cap N :
   | init => exact pinv_init enc prog cap N
   | step _ hs ih => exact pinv_step ih hs
 
+/-! ### progress: a stuck product state is a final pipeline state -/
+
+theorem step?_wlen {fx : Bool} {s s' : Pipeline.State} {e : Pipeline.Event}
+    (h : Pipeline.step? fx s e = some s') : s'.workers.length = s.workers.length := by
+  cases Pipeline.stepI_of_step? h <;> simp
+
+theorem reach_wlen {fx : Bool} {prog : List Pipeline.Instr} {cap N : Nat} {p : Pipeline.State}
+    (h : Pipeline.Reachable fx prog cap N p) : p.workers.length = N := by
+  induction h with
+  | init => simp [Pipeline.init]
+  | step _ hs ih => obtain ⟨e, he⟩ := hs; exact (step?_wlen he).trans ih
+
+theorem stut_step {enc : PItem → QItem} {s : PState} {cap : Nat} (hcap : s.p.cap = cap)
+    {e : Queue.Event} {q' : Queue.State} (hok : stutOK enc s e = true)
+    (hq : Queue.step cap s.q e = some q') : pstep enc s (.stut e) = some ⟨s.p, q'⟩ := by
+  simp only [pstep, hok, ↓reduceIte, hcap, hq, Option.map_some]
+
+theorem work_step {enc : PItem → QItem} {s : PState} {e : Pipeline.Event} {p' : Pipeline.State}
+    (hok : workOK e = true) (he : Pipeline.step? true s.p e = some p') :
+    pstep enc s (.work e) = some ⟨p', s.q⟩ := by
+  simp only [pstep, hok, ↓reduceIte, he, Option.map_some]
+
+section progress
+variable {enc : PItem → QItem} {prog : List Pipeline.Instr} {cap N : Nat} {s : PState}
+
+theorem pinv_cur (henc : EncOK enc prog) (hi : PInv enc prog cap N s) : s.p.cur = s.q.cur := by
+  rw [Pipeline.State.cur, ← sizeSum_map_enc henc.size, Queue.sizeSum_perm hi.perm, hi.a.cur_eq]
+
+theorem pinv_empty (hi : PInv enc prog cap N s) : s.p.queue = [] ↔ s.q.items = [] := by
+  constructor
+  · intro h; have := hi.perm; rw [h] at this; exact this.symm.eq_nil
+  · intro h
+    have := hi.perm; rw [h] at this
+    exact List.map_eq_nil_iff.mp this.eq_nil
+
+/-- a worker that is evaluating the loop condition of `pull` can move in the product: it takes a
+maximal item, reports end-of-stream, or goes to sleep -/
+theorem pulling_moves (henc : EncOK enc prog) (hi : PInv enc prog cap N s) {u : Nat}
+    (hu : s.q.thr[u]? = some .pulling) :
+    ∃ e s', pstep enc s e = some s' ∧ e.isSpur = false := by
+  have hcap := hi.cap_eq
+  obtain ⟨w, rfl, hw⟩ := hi.c1 u _ hu rfl
+  by_cases he : s.q.items = []
+  · have hpq : s.p.queue = [] := (pinv_empty hi).mpr he
+    by_cases hcl : s.q.closed = true
+    · have hq : Queue.step cap s.q (.pullEos (w + 1)) = some ((s.q.setT (w + 1) .idle).log (.eos (w + 1))) := by
+        simp only [Queue.step, hu, he, hcl, and_self, ↓reduceIte]
+      have hp := Pipeline.step?_of_stepI (fx := true) (.exit hw (hi.closed_eq.trans hcl) hpq)
+      exact ⟨.eos w, _, by simp only [pstep, hcap, hq, hp, Option.bind_some, Option.map_some] <;> rfl, rfl⟩
+    · have hcl' : s.q.closed = false := by simpa using hcl
+      have hq : Queue.step cap s.q (.pullWait (w + 1)) = some (s.q.setT (w + 1) .waitNE) := by
+        simp only [Queue.step, hu, he, hcl', and_self, ↓reduceIte]
+      exact ⟨.stut (.pullWait (w + 1)), _, stut_step hcap rfl hq, rfl⟩
+  · have hpq : s.p.queue ≠ [] := fun h => he ((pinv_empty hi).mp h)
+    obtain ⟨x, hm⟩ := Pipeline.exists_isMax s.p.queue hpq
+    have hmq := isMax_enc henc hi.perm (fun y hy => hi.sub y (.inl hy)) hm
+    obtain ⟨v, q', hn⟩ := Queue.notifyNF_enabled ((s.q.setT (w + 1) .idle).take (w + 1) (enc x))
+    have hq : Queue.step cap s.q (.pullTake (w + 1) (enc x) v) = some q' := by
+      simp only [Queue.step, hu, hmq, and_self, ↓reduceIte, hn]
+    have hp := Pipeline.step?_of_stepI (fx := true) (.pull hw hm)
+    exact ⟨.pull w x v, _, by simp only [pstep, hcap, hq, hp, Option.bind_some, Option.map_some] <;> rfl, rfl⟩
+
+/-- a worker at the top of its loop, while the completed-call model lets it pull an item or exit,
+is not stuck in the product: it or — when it sleeps — a consumer to which the wake-up went can move -/
+theorem worker_moves (henc : EncOK enc prog) (hi : PInv enc prog cap N s) {w : Nat}
+    (hw : s.p.workers[w]? = some .idle)
+    (hen : s.p.queue ≠ [] ∨ (s.p.closed = true ∧ s.p.queue = [])) :
+    ∃ e s', pstep enc s e = some s' ∧ e.isSpur = false := by
+  have hcap := hi.cap_eq
+  have hwN : w + 1 < s.q.thr.length := by
+    have := (List.getElem?_eq_some_iff.mp hw).1
+    have := reach_wlen hi.reach
+    rw [hi.len]; omega
+  have hu : s.q.thr[w + 1]? = some (s.q.thr[w + 1]) := List.getElem?_eq_getElem hwN
+  generalize s.q.thr[w + 1] = st at hu
+  cases st with
+  | idle =>
+    have hq : Queue.step cap s.q (.pullEnter (w + 1)) = some (s.q.setT (w + 1) .pulling) := by
+      simp only [Queue.step, hu, ↓reduceIte]
+    exact ⟨.stut (.pullEnter (w + 1)), _, stut_step hcap (by simp [stutOK, hw]) hq, rfl⟩
+  | pulling => exact pulling_moves henc hi hu
+  | notifNE =>
+    have hq : Queue.step cap s.q (.pullWake (w + 1)) = some (s.q.setT (w + 1) .pulling) := by
+      simp only [Queue.step, hu, ↓reduceIte]
+    exact ⟨.stut (.pullWake (w + 1)), _, stut_step hcap rfl hq, rfl⟩
+  | waitNE =>
+    have hpos : 0 < s.q.thr.countP Queue.TStatus.isWaitNE := Queue.countP_pos_of_get _ hu rfl
+    rcases hen with hne | ⟨hcl, _⟩
+    · have hqne : s.q.items ≠ [] := fun h => hne ((pinv_empty hi).mpr h)
+      have hlen : 0 < s.q.items.length := List.length_pos_iff.mpr hqne
+      have hcov := hi.b.ne hpos
+      have : 0 < s.q.thr.countP Queue.TStatus.isNotifNE ∨ 0 < s.q.thr.countP Queue.TStatus.isPulling := by
+        omega
+      rcases this with h | h
+      · obtain ⟨v, stv, hv, hp⟩ := Queue.exists_of_countP_pos h
+        have : stv = .notifNE := by cases stv <;> simp [Queue.TStatus.isNotifNE] at hp; rfl
+        subst this
+        have hq : Queue.step cap s.q (.pullWake v) = some (s.q.setT v .pulling) := by
+          simp only [Queue.step, hv, ↓reduceIte]
+        exact ⟨.stut (.pullWake v), _, stut_step hcap rfl hq, rfl⟩
+      · obtain ⟨v, stv, hv, hp⟩ := Queue.exists_of_countP_pos h
+        have : stv = .pulling := by cases stv <;> simp [Queue.TStatus.isPulling] at hp; rfl
+        subst this
+        exact pulling_moves henc hi hv
+    · have := hi.b.closedNE (hi.closed_eq.symm.trans hcl)
+      omega
+  | pushing it => have := hi.d.only (w + 1) _ hu (by simp [Queue.TStatus.item?]); omega
+  | waitNF it => have := hi.d.only (w + 1) _ hu (by simp [Queue.TStatus.item?]); omega
+  | notifNF it => have := hi.d.only (w + 1) _ hu (by simp [Queue.TStatus.item?]); omega
+
+/-- the status of the producer's thread -/
+theorem producer_status (hi : PInv enc prog cap N s) :
+    ∃ st, s.q.thr[0]? = some st ∧ st.inPull = false := by
+  have h0 : 0 < s.q.thr.length := by rw [hi.len]; omega
+  refine ⟨s.q.thr[0], List.getElem?_eq_getElem h0, ?_⟩
+  cases hin : (s.q.thr[0]).inPull with
+  | false => rfl
+  | true =>
+    obtain ⟨w, hw, _⟩ := hi.c1 0 _ (List.getElem?_eq_getElem h0) hin
+    omega
+
+/-- while the completed-call model lets the producer complete its `push`, it can move in the
+product: it is never asleep then (`no_lost_wakeup_not_full_single`) -/
+theorem producer_push_moves (henc : EncOK enc prog) (hi : PInv enc prog cap N s) {x : PItem}
+    {rest : List Pipeline.Instr} (hp : s.p.prog = .push x :: rest)
+    (hg : Pipeline.pushGuard true s.p x) :
+    ∃ e s', pstep enc s e = some s' ∧ e.isSpur = false := by
+  have hcap := hi.cap_eq
+  obtain ⟨st, h0, hin⟩ := producer_status hi
+  have hcur := pinv_cur henc hi
+  have hguard : (s.q.cur + (enc x).size ≤ cap ∨ s.q.items = []) ∧ s.q.closed = false := by
+    obtain ⟨hc, hfit⟩ := hg
+    refine ⟨?_, hi.closed_eq ▸ hc⟩
+    rcases hfit with h | ⟨_, h⟩
+    · left; rw [henc.size, ← hcur, ← hcap]; exact h
+    · right; exact (pinv_empty hi).mp h
+  have hitem : ∀ it, st.item? = some it → it = enc x := by
+    intro it hit
+    obtain ⟨x', r', hp', hx⟩ := hi.c0 st it h0 hit
+    rw [hp] at hp'; cases hp'; exact hx
+  cases st with
+  | idle =>
+    have hq : Queue.step cap s.q (.pushEnter 0 (enc x)) = some (s.q.setT 0 (.pushing (enc x))) := by
+      simp only [Queue.step, h0, ↓reduceIte]
+    exact ⟨.stut (.pushEnter 0 (enc x)), _, stut_step hcap (by simp [stutOK, hp]) hq, rfl⟩
+  | pushing it =>
+    have := hitem it rfl; subst this
+    obtain ⟨w, q', hn⟩ := Queue.notifyNE_enabled ((s.q.setT 0 .idle).enq 0 (enc x))
+    have hq : Queue.step cap s.q (.pushAdmit 0 w) = some q' := by
+      simp only [Queue.step, h0, hguard, and_self, ↓reduceIte, hn]
+    have hps := Pipeline.step?_of_stepI (fx := true) (.push hp hg)
+    exact ⟨.push w, _, by simp only [pstep, hp, hcap, hq, hps, Option.bind_some, Option.map_some] <;> rfl, rfl⟩
+  | waitNF it =>
+    exfalso
+    have := hitem it rfl; subst this
+    obtain ⟨h1, h2, h3⟩ := hi.d.wait 0 _ h0
+    rcases hguard.1 with h | h
+    · omega
+    · exact h2 h
+  | notifNF it =>
+    have hq : Queue.step cap s.q (.pushWake 0) = some (s.q.setT 0 (.pushing it)) := by
+      simp only [Queue.step, h0]
+    exact ⟨.stut (.pushWake 0), _, stut_step hcap rfl hq, rfl⟩
+  | pulling => simp [Queue.TStatus.inPull] at hin
+  | waitNE => simp [Queue.TStatus.inPull] at hin
+  | notifNE => simp [Queue.TStatus.inPull] at hin
+
+/-- when the producer's next instruction is not a `push`, its thread is outside the queue -/
+theorem producer_idle (hi : PInv enc prog cap N s) (hnp : ∀ x rest, s.p.prog ≠ .push x :: rest) :
+    s.q.thr[0]? = some .idle := by
+  obtain ⟨st, h0, hin⟩ := producer_status hi
+  cases st with
+  | idle => exact h0
+  | pushing it => obtain ⟨x, r, hp, _⟩ := hi.c0 _ it h0 rfl; exact absurd hp (hnp x r)
+  | waitNF it => obtain ⟨x, r, hp, _⟩ := hi.c0 _ it h0 rfl; exact absurd hp (hnp x r)
+  | notifNF it => obtain ⟨x, r, hp, _⟩ := hi.c0 _ it h0 rfl; exact absurd hp (hnp x r)
+  | pulling => simp [Queue.TStatus.inPull] at hin
+  | waitNE => simp [Queue.TStatus.inPull] at hin
+  | notifNE => simp [Queue.TStatus.inPull] at hin
+
+/-- Every step that the completed-call pipeline can take from `s.p` is matched by an enabled
+non-spurious transition of the product (of the same thread, or — for a sleeping consumer — of the
+consumer the wake-up went to). -/
+theorem abstract_step_matched (henc : EncOK enc prog) (hi : PInv enc prog cap N s)
+    {p' : Pipeline.State} (hs : Pipeline.Step true s.p p') :
+    ∃ e s', pstep enc s e = some s' ∧ e.isSpur = false := by
+  have hcap := hi.cap_eq
+  obtain ⟨e, he⟩ := hs
+  cases Pipeline.stepI_of_step? he with
+  | push hp hg => exact producer_push_moves henc hi hp hg
+  | waitEmpty hp hq0 =>
+    have hqe := (pinv_empty hi).mp hq0
+    exact ⟨.waitEmpty, _, by simp only [pstep, hp, hqe, ↓reduceIte, he, Option.map_some] <;> rfl, rfl⟩
+  | close hp =>
+    have h0 := producer_idle hi (fun x r h => by rw [hp] at h; cases h)
+    obtain ⟨q', hq⟩ : ∃ q', Queue.step cap s.q (.close 0) = some q' := by
+      simp only [Queue.step, h0, ↓reduceIte]; exact ⟨_, rfl⟩
+    exact ⟨.close, _, by simp only [pstep, hp, hcap, hq, he, Option.bind_some, Option.map_some] <;> rfl, rfl⟩
+  | pull hw hm => exact worker_moves henc hi hw (.inl (List.ne_nil_of_mem hm.1))
+  | exit hw hc hq0 => exact worker_moves henc hi hw (.inr ⟨hc, hq0⟩)
+  | buffer hw => exact ⟨.work _, _, work_step rfl he, rfl⟩
+  | release1 _ _ => exact ⟨.work _, _, work_step rfl he, rfl⟩
+  | release _ _ _ _ => exact ⟨.work _, _, work_step rfl he, rfl⟩
+  | advance _ _ _ => exact ⟨.work _, _, work_step rfl he, rfl⟩
+  | advance4 _ => exact ⟨.work _, _, work_step rfl he, rfl⟩
+
+/-- A stuck product state projects to a final pipeline state, given that the completed-call
+pipeline has no deadlock (`Props.C05.no_deadlock_fixed`). -/
+theorem stuck_final (henc : EncOK enc prog)
+    (hprog : ∀ p, Pipeline.Reachable true prog cap N p → ¬ Pipeline.Final p →
+      ∃ p', Pipeline.Step true p p')
+    (hi : PInv enc prog cap N s) (hst : Stuck enc s) : Pipeline.Final s.p := by
+  refine Classical.byContradiction fun hnf => ?_
+  obtain ⟨p', hs⟩ := hprog s.p hi.reach hnf
+  obtain ⟨e, s', h, hspur⟩ := abstract_step_matched henc hi hs
+  have := hst e s' h
+  rw [hspur] at this
+  cases this
+
+end progress
+
 end Ragc.Product
